@@ -50,9 +50,11 @@ OpTable == <<
   [n |-> "<",  id |-> <<"<">>,      dy |-> TRUE,  pr |-> 23, rank |-> 14, tc |-> << <<"I","I">>, <<"F","F">>, <<"S","S">> >>, di |-> TRUE, df |-> TRUE, ds |-> TRUE],
   [n |-> "<=", id |-> <<"<","=">>,  dy |-> TRUE,  pr |-> 23, rank |-> 14, tc |-> << <<"I","I">>, <<"F","F">>, <<"S","S">> >>, di |-> TRUE, df |-> TRUE, ds |-> TRUE],
   [n |-> ">=", id |-> <<">","=">>,  dy |-> TRUE,  pr |-> 23, rank |-> 14, tc |-> << <<"I","I">>, <<"F","F">>, <<"S","S">> >>, di |-> TRUE, df |-> TRUE, ds |-> TRUE],
-  [n |-> "<>", id |-> <<"<",">">>,  dy |-> TRUE,  pr |-> 23, rank |-> 14, tc |-> << <<"I","I">>, <<"F","F">>, <<"S","S">> >>, di |-> TRUE, df |-> TRUE, ds |-> TRUE] >>
+  [n |-> "<>", id |-> <<"<",">">>,  dy |-> TRUE,  pr |-> 23, rank |-> 14, tc |-> << <<"I","I">>, <<"F","F">>, <<"S","S">> >>, di |-> TRUE, df |-> TRUE, ds |-> TRUE],
+  \* the manual's alias of <>: row appended by "fix: != alias" (behind the rows EvalStrExpression addresses by index)
+  [n |-> "!=", id |-> <<"!","=">>,  dy |-> TRUE,  pr |-> 23, rank |-> 14, tc |-> << <<"I","I">>, <<"F","F">>, <<"S","S">> >>, di |-> TRUE, df |-> TRUE, ds |-> TRUE] >>
 
-\* the manual's alias "!=" of "<>" has no row in Operators[]: DocAliases lists what the manual promises
+\* the aliases the manual promises (the pinned tree had no "!=" row in Operators[]; Expr_MC's ASSUME follows OpTable)
 DocAliases == << [n |-> "!=", id |-> <<"!","=">>, of |-> "<>"], [n |-> "==", id |-> <<"=","=">>, of |-> "="] >>
 
 \* "minus may have one or two operands": MinusMonadicOperator of operator.c (not in the manual's table)
@@ -309,7 +311,7 @@ LexLess(a, b) == IF b = <<>> THEN FALSE ELSE IF a = <<>> THEN TRUE
 
 CmpResult(n, lt, eq) ==     \* from "less" and "equal"
   CASE n \in {"=", "=="} -> BoolV(eq)
-    [] n = "<>" -> BoolV(~eq)
+    [] n \in {"<>", "!="} -> BoolV(~eq)
     [] n = "<"  -> BoolV(lt)
     [] n = "<=" -> BoolV(lt \/ eq)
     [] n = ">"  -> BoolV(~lt /\ ~eq)
